@@ -97,7 +97,7 @@ class FromInt(Case):
     bounds = 'Bits(x,n) for n in 0..16 (quick) / 0..72 + {127,128,129,255,256,257} (thorough) with x any value below 2^(n+3) (higher bits must be cleared); Bits(x) without size for x below 2^n, n<=16 (size = bit length); Bits(list of n bits); Bits(Bits) with and without a new size'
 
     def shapes(self, tier):
-        ns = list(range(0, 17)) if tier == 'quick' else list(range(0, 73)) + [127, 128, 129, 255, 256, 257]
+        ns = list(range(0, 17)) if tier == 'quick' else list(range(0, 131)) + [255, 256, 257, 511, 512, 513, 1023, 1024, 1025]
         for n in ns:
             yield dict(kind='int', n=n)
             yield dict(kind='list', n=n)
@@ -148,7 +148,7 @@ class Out(Case):
     max_paths = 5000
 
     def shapes(self, tier):
-        ns = list(range(0, 17)) if tier == 'quick' else list(range(0, 73)) + [127, 128, 129, 255, 256, 257]
+        ns = list(range(0, 17)) if tier == 'quick' else list(range(0, 131)) + [255, 256, 257, 511, 512, 513, 1023, 1024, 1025]
         for n in ns:
             yield dict(kind='num', n=n)
             yield dict(kind='bytes', n=n)
